@@ -20,7 +20,7 @@ import ast
 from typing import Dict, List, Optional, Set, Tuple
 
 from .report import Ctx
-from .srcmodel import AnalysisError, FuncNode, call_leaf, call_name, calls_in, const_str, contains, dotted, enclosing_function, get_kwarg, qualname, src, walk_local
+from .srcmodel import AnalysisError, FuncNode, call_leaf, call_name, calls_in, const_str, contains, dotted, enclosing_function, get_kwarg, loc, qualname, src, walk_local
 from .util import enclosing_trys, enclosing_withs, exc_expr_names, guard_chain, handler_type_names, root_name
 
 PARSE_ENTRIES = ["parse_args", "parse_object", "parse_env", "parse_string", "parse_path"]
@@ -51,6 +51,17 @@ def _handler_calls_error(h: ast.ExceptHandler) -> bool:
         if isinstance(s, ast.Expr) and isinstance(s.value, ast.Call) and call_leaf(s.value) == "error" and root_name(s.value.func) in ("self", "parser"):
             return True
     return False
+
+
+# functions the leak search does not enter, with the reason
+R6_STOP: Dict[str, str] = {
+    "_core:ArgumentParser.dump": "--print_config dumps the configuration that was just parsed and validated: serialisation (serialize=True below it), not parsing",
+    "_typehints:ActionTypeHint.normalize_default": "normalises the default DECLARED for an argument (signature defaults, set_defaults; inside per-class parsers: values that were validated before) - program data, not the input being parsed",
+}
+# reviewed call sites (function, callee) that the call graph reaches but values rule out
+R6_REVIEWED = {
+    ("_typehints:ActionTypeHint.get_class_parser", "import_object"): "only given a class_path string by discard_init_args_on_class_path_change, whose value comes out of a configuration that already passed adapt_class_type (the path was imported then)",
+}
 
 
 def _yaml_constructor_foreign_raises() -> List[Tuple[str, str]]:
@@ -525,15 +536,73 @@ def run(ctx: Ctx) -> int:
             ctx.oblige("C03.R5", ok, c, why if ok else f"a loader failure here is not anticipated: {why}", fn=fn)
     ctx.floor("C03.R5-sites", n_r5, 10)
 
+    # ---------------- R6: exception flow for two families of user-data failures --------------------------
+    # (E6, path-precise: a leak is an origin reachable from a parse entry along call sites none of which lies
+    #  under a handler for the exception; every report carries the witness chain)
+    from .callgraph import CallGraph
+    from .excflow import ExcFlow
+    from .rules_C01 import polarity
+
+    cg = CallGraph(repo)
+    acts = [q for q in cg.funcs if q.endswith(".__call__") and not q.startswith(("_deprecated:", "_common:", "_util:"))]
+    dispatch = {"_core:ArgumentParser.parse_known_args": acts + ["_core:ArgumentParser._parse_optional"]}
+    ef = ExcFlow(repo, cg)
+    roots6 = [f"_core:ArgumentParser.{n}" for n in PARSE_ENTRIES]
+
+    def _serialize_only(f: str, node: ast.AST) -> bool:
+        fn_ = cg.funcs[f]
+        if isinstance(node, ast.Call) and call_leaf(node) in PRELUDE and f.split(".")[-1] in PARSE_ENTRIES:
+            return True  # prelude of a parse entry: deliberately outside the conversion (see assumptions)
+        if f.endswith(".__call__") and any(pol and ast.unparse(t).replace(" ", "") == "len(args)==0" for t, pol in guard_chain(node, stop=fn_)):
+            return True  # declaration form of an action (`action=ActionX(...)` called back by add_argument without positional arguments)
+        if "serialize" not in [a.arg for a in fn_.args.args + fn_.args.kwonlyargs]:
+            return False
+        can_t, can_f = polarity(node, fn_)
+        return can_t and not can_f
+
+    ef.skip_site = _serialize_only  # the parse entries never run serialising sites (serialize is False below them)
+    FAMILIES = [
+        # (origin function, what raises inside it, exception, meaning)
+        ("_util:import_object", lambda c: isinstance(c, ast.Call) and (call_leaf(c) == "__import__" or (call_leaf(c) == "getattr" and len(c.args) == 2)), ["ModuleNotFoundError", "AttributeError"], "an import path given by the user cannot be imported"),
+        ("_util:Path.get_content", lambda c: isinstance(c, ast.Call) and call_leaf(c) == "read" and not c.args, ["UnicodeDecodeError"], "a file given by the user is not valid text"),
+    ]
+    n_orig = 0
+    for ofn, is_raiser, excs, meaning in FAMILIES:
+        of = ctx.func(ofn)
+        raisers = [c for c in ast.walk(of) if is_raiser(c)]
+        ctx.need(raisers, f"{ofn}: intrinsic raisers")
+        for exc in excs:
+            escapes = [c for c in raisers if not ef._caught(exc, ef._enclosing_handlers(c, of))]
+            call_sites: Dict[str, List[ast.AST]] = {}
+            for f, lst in cg.edges.items():
+                for c, ts, how in lst:
+                    if ofn in ts and not _serialize_only(f, c):
+                        call_sites.setdefault(f, []).append(c)
+            n_orig += sum(len(v) for v in call_sites.values())
+            if not escapes:
+                ctx.oblige("C03.R6", True, of, f"{exc} ({meaning}) is converted inside {ofn.split(':')[1]} itself", fn=of, construct=f"{exc} converted at origin")
+                continue
+            found = ef.leaks(roots6, exc, call_sites, dispatch, stop_at=R6_STOP)
+            for lk in found:
+                key = (lk["function"], call_leaf(lk["site"]))
+                if key in R6_REVIEWED:
+                    ctx.notes.append(f"R6: {exc} at {src(lk['site'], 50)} in {lk['function']}: {R6_REVIEWED[key]}")
+                    continue
+                chain = [f"{f_.split(':')[1]}" + (f" (called at {loc(c_)})" if c_ is not None else "") for f_, c_ in lk["chain"]]
+                ctx.oblige(
+                    "C03.R6",
+                    False,
+                    lk["site"],
+                    f"{exc} ({meaning}) raised below this call reaches {lk['chain'][0][0].split('.')[-1]} without passing a handler that catches it: it escapes as a foreign exception instead of ArgumentError / exit 2; chain: " + " -> ".join(chain),
+                    fn=cg.funcs[lk["function"]],
+                    details={"chain": chain},
+                )
+            if not found or all((lk["function"], call_leaf(lk["site"])) in R6_REVIEWED for lk in found):
+                ctx.oblige("C03.R6", True, of, f"every call of {ofn.split(':')[1]} below the parse entries lies under a handler for {exc}", fn=of, construct=f"{exc} handled on all paths")
+    ctx.floor("C03.R6-origin-call-sites", n_orig, 8)
+
     # ---------------- E6 (thorough tier, informational) ---------------------------
     if ctx.tier == "thorough":
-        from .callgraph import CallGraph
-        from .excflow import ExcFlow
-
-        cg = CallGraph(repo)
-        acts = [q for q in cg.funcs if q.endswith(".__call__") and not q.startswith(("_deprecated:", "_common:", "_util:"))]
-        dispatch = {"_core:ArgumentParser.parse_known_args": acts + ["_core:ArgumentParser._parse_optional"]}
-        ef = ExcFlow(repo, cg)
         roots = [f"_core:ArgumentParser.{n}" for n in PARSE_ENTRIES]
         ef.analyse(roots, dispatch)
         summary = {}
